@@ -263,7 +263,7 @@ def run(tier, replay):
     for rj in results[:2] + results[-2:]:
         ck.sample({"job": meta[rj["id"].split(":")[0]]["job"][:140], "id": rj["id"], "class": rj["cls"], "calls": rj.get("sig", "")[:160]})
     ck.assumptions += ["compiled reference = Decay0 2020-04-20 text with REAL widened to 8 bytes; CERNLIB GAUSS/DGMLT/DIVDIF re-implemented in ref/cern.f",
-                       "full-range/window ratio compared to 1e-6 (3e-4 for mode 10: two different adaptive quadratures); rejection trials closer "
+                       "full-range/window ratio compared to 1e-5 (windows in a spectrum tail amplify rounding; 3e-4 for mode 10: two different adaptive quadratures); rejection trials closer "
                        "than 1e-6 (1e-3 for the quadrature-tabulated modes) to their boundary are excluded and counted",
                        "named deviations: Decay0's fermi() raises an energy below 50 eV to 50 eV in place (events with such a lepton excluded); "
                        "the port refuses quadruple-beta decay to excited levels (reference message says g.s. to g.s. but does not enforce it)"]
